@@ -136,7 +136,9 @@ def _options(case):
         o['order'] = 'interleaved'
     elif cls == 'edge':
         o['sizes'] = nsrc_sizes()
-        o['edge'] = _pick(rng, ['left', 'right', 'bottom', 'top'])
+        o['edge'] = _pick(rng, ['left', 'right', 'bottom', 'top', 'left', 'right', 'bottom', 'top', 'bl', 'br', 'tl', 'tr'])
+        if len(o['edge']) == 2:
+            o['sizes'] = [1]                      # one source in a corner (two borders at once)
         o['kind'] = _pick(rng, GAUSS_FIXED + ['imagepsf'])
     elif cls == 'masked':
         o['sizes'] = nsrc_sizes()
@@ -389,22 +391,24 @@ def _build_scene(case, o):
     # edge: crop so that the extreme source sits at delta from the chosen edge (delta < 0: off the pixel grid)
     edge_src = None
     if o['edge']:
-        delta = float(rng.uniform(-0.9, 2.5))
-        if o['edge'] == 'left':
-            edge_src = int(np.argmin(xy[:, 0]))
-            xy[:, 0] -= xy[edge_src, 0] - delta
-        elif o['edge'] == 'bottom':
-            edge_src = int(np.argmin(xy[:, 1]))
-            xy[:, 1] -= xy[edge_src, 1] - delta
-        elif o['edge'] == 'right':
-            edge_src = int(np.argmax(xy[:, 0]))
-            shape = (shape[0], int(round(xy[edge_src, 0] + 1 + delta)))
-        else:
-            edge_src = int(np.argmax(xy[:, 1]))
-            shape = (int(round(xy[edge_src, 1] + 1 + delta)), shape[1])
-        if o['edge'] in ('left', 'bottom'):
-            shape = (int(np.ceil(xy[:, 1].max() + fit_half + 3)) if o['edge'] == 'bottom' else shape[0],
-                     int(np.ceil(xy[:, 0].max() + fit_half + 3)) if o['edge'] == 'left' else shape[1])
+        parts = {'left': ['left'], 'right': ['right'], 'bottom': ['bottom'], 'top': ['top'], 'bl': ['left', 'bottom'],
+                 'br': ['right', 'bottom'], 'tl': ['left', 'top'], 'tr': ['right', 'top']}[o['edge']]
+        first = parts[0]
+        edge_src = int(np.argmin(xy[:, 0])) if first == 'left' else int(np.argmax(xy[:, 0])) if first == 'right' \
+            else int(np.argmin(xy[:, 1])) if first == 'bottom' else int(np.argmax(xy[:, 1]))
+        for part in parts:
+            # distance of the source from the border pixel centre; sometimes exactly on a pixel centre / pixel edge
+            delta = float(rng.uniform(-0.9, 2.5)) if rng.random() < 0.75 else float(_pick(rng, [-0.5, 0.0, 0.5, 1.0, 2.0]))
+            if part == 'left':
+                xy[:, 0] -= xy[edge_src, 0] - delta
+                shape = (shape[0], int(np.ceil(xy[:, 0].max() + fit_half + 3)))
+            elif part == 'bottom':
+                xy[:, 1] -= xy[edge_src, 1] - delta
+                shape = (int(np.ceil(xy[:, 1].max() + fit_half + 3)), shape[1])
+            elif part == 'right':
+                shape = (shape[0], int(round(xy[edge_src, 0] + 1 + delta)))
+            else:
+                shape = (int(round(xy[edge_src, 1] + 1 + delta)), shape[1])
     model, info = G.build_model(rng, o['kind'], fwhm, shape)
     # input order
     if o['order'] == 'sorted':
@@ -789,14 +793,25 @@ def run_case(case):
     limited_grp = np.array([limited[fitgroup == g].any() for g in fitgroup])
 
     # ---- quantifier preconditions -------------------------------------------------------
-    if not (O.half_integer_free(xi) and O.half_integer_free(yi)):
-        case.skip('init_on_pixel_boundary')
     cont = G.contamination(s.stack, s.peaks, fitgroup, s.shape, fs, xi, yi)
     if cont > 1e-9 and not o['perturbed']:
         case.skip('unmodelled_neighbour_above_1e-9')
     case.dev('unmodelled_neighbour_contribution', cont)
     eff_mask = ~np.isfinite(data) if mask is None else (mask | ~np.isfinite(data))
     facts = [O.window_facts(data, mask, fs, xi[i], yi[i]) for i in range(n)]
+    # initial position exactly on a pixel boundary (k + 0.5): the centre pixel may be either neighbour; when the two
+    # choices differ in a judged fact the window-dependent comparisons of that source are not made
+    amb = np.zeros(n, bool)
+    for i in range(n):
+        cxs = [facts[i]['cx']] + ([facts[i]['cx'] - 1] if not O.half_integer_free([xi[i]]) else [])
+        cys = [facts[i]['cy']] + ([facts[i]['cy'] - 1] if not O.half_integer_free([yi[i]]) else [])
+        if len(cxs) * len(cys) > 1:
+            case.note('axis2_init_exactly_on_pixel_boundary')
+            key = lambda f: (f['npix'], f['nmasked'], f['trimmed'], f['centre_ok'])  # noqa: E731
+            alts = [O.window_facts(data, mask, fs, xi[i], yi[i], centre=(a, b)) for a in cxs for b in cys]
+            amb[i] = len({key(f) for f in alts}) > 1
+    if amb.any():
+        case.note('axis2_half_integer_window_ambiguous_sources', int(amb.sum()))
     if any(f['npix'] == 0 for f in facts):
         case.skip('window_fully_masked')
     # determinacy: enough usable pixels per group
@@ -996,13 +1011,14 @@ def run_case(case):
     # npixfit
     npix_exp = np.array([facts[i]['npix'] for i in R])
     nf_mech = dict(mech, nonfinite=bool(o['nonfinite']), mask_given=mask is not None)
-    case.check(np.array_equal(_col(tbl, 'npixfit'), npix_exp), 'npixfit_counts_unmasked_window_pixels', nf_mech,
-               obs=_col(tbl, 'npixfit').tolist(), exp=npix_exp.tolist())
+    sure = ~amb[R] if not o['finder'] else np.ones(n, bool)
+    case.check(np.array_equal(_col(tbl, 'npixfit')[sure], npix_exp[sure]), 'npixfit_counts_unmasked_window_pixels',
+               nf_mech, obs=_col(tbl, 'npixfit').tolist(), exp=npix_exp.tolist())
     # cfit NaN <=> centre pixel unusable
     cfit = _col(tbl, 'cfit').astype(float).ravel()
     qfit = _col(tbl, 'qfit').astype(float).ravel()
     cen_ok = np.array([facts[i]['centre_ok'] for i in R])
-    case.check(np.array_equal(np.isnan(cfit), ~cen_ok), 'cfit_nan_iff_centre_pixel_masked', mech,
+    case.check(np.array_equal(np.isnan(cfit)[sure], ~cen_ok[sure]), 'cfit_nan_iff_centre_pixel_masked', mech,
                obs=np.isnan(cfit).tolist(), exp=(~cen_ok).tolist())
     # columns and units
     xf, yf, ff = _col(tbl, 'x_fit'), _col(tbl, 'y_fit'), _col(tbl, 'flux_fit')
@@ -1039,6 +1055,9 @@ def run_case(case):
             dist += [abs(yf[k] - (yin[k] - by)), abs(yf[k] - (yin[k] + by))]
         hit = False if not dist else (True if min(dist) <= 1e-9 else (False if min(dist) > 1e-6 else None))
         exp = O.flag_expectations(facts[R[k]], xf[k], yf[k], ff[k], s.shape, hit, notconv, covmiss)
+        if not sure[k]:
+            exp[1] = None
+            exp[16] = None if exp[16] is True else exp[16]
         for bit, want in exp.items():
             got = bool(flags[k] & bit)
             if want is None:
@@ -1199,6 +1218,10 @@ def run_case(case):
         for c in tbl.colnames:
             case.close(_col(t3, c), _col(tbl, c), 'finder_init_equals_same_positions_as_init_params', mech=dict(fm, col=c))
         return
+    if o['kind'] in ('imagepsf', 'gridded') and not o['finder']:
+        # image-based models: the default rendering window (psf_shape=None) is the array footprint, which depends on
+        # the (y, x) oversampling factors and the array size along each axis: always looked at
+        _default_window(case, p, tbl, s, o, model, call_data, data, dict(mech, relation='model_image'))
     rels = ['separate', _pick(rng, ['permute', 'scale_k', 'scale_k', 'iterative', 'model_image', 'separate'])]
     if o['bkg'] in ('column', 'column_per_source'):
         rels.append('model_image')
@@ -1527,7 +1550,8 @@ def _own_render(s, model, tbl, shape, rows=None, psf_shape=None):
         if psf_shape is None:
             img += np.asarray(m(xx, yy), float)
         else:
-            wr, wc, _, _ = O.fit_window(shape, psf_shape, _col(tbl, 'x_fit')[k], _col(tbl, 'y_fit')[k])
+            ws = psf_shape[k] if isinstance(psf_shape, list) else psf_shape
+            wr, wc = O.any_window(shape, ws, _col(tbl, 'x_fit')[k], _col(tbl, 'y_fit')[k])
             if len(wr) and len(wc):
                 sub = np.ix_(wr, wc)
                 img[sub] += np.asarray(m(xx[sub], yy[sub]), float)
@@ -1543,8 +1567,13 @@ def _rel_model_image(case, p, tbl, s, o, model, call_data, data, mech):
     own = _own_render(s, model, tbl, s.shape, psf_shape=big)
     case.close(mi, own, 'model_image_is_sum_of_fitted_models', rtol=1e-10, atol=1e-12 * float(np.max(np.abs(own))),
                mech=mm)
-    ps = int(_pick(rng, [5, 9, 15]))
+    _default_window(case, p, tbl, s, o, model, call_data, data, mm)
+    ps = int(_pick(rng, [4, 5, 8, 9, 15]))           # even and odd windows
+    case.note('axis2_parity_psf_shape_' + ('even' if ps % 2 == 0 else 'odd'))
     mi2 = np.asarray(p.make_model_image(s.shape, psf_shape=ps))
+    own2 = _own_render(s, model, tbl, s.shape, psf_shape=(ps, ps))
+    case.close(mi2, own2, 'model_image_is_sum_of_fitted_models', rtol=1e-10,
+               atol=1e-12 * float(np.max(np.abs(own2)) + 1e-300), mech=dict(mm, window='given'))
     d = call_data if not o['nddata'] else data
     r2 = p.make_residual_image(d, psf_shape=ps)
     r2v = np.asarray(_strip(r2))
@@ -1558,7 +1587,7 @@ def _rel_model_image(case, p, tbl, s, o, model, call_data, data, mech):
         # every source adds its local_bkg over its own psf_shape window (documented)
         add = np.zeros(s.shape)
         for k in range(len(tbl)):
-            rows, cols, _, _ = O.fit_window(s.shape, (ps, ps), _col(tbl, 'x_fit')[k], _col(tbl, 'y_fit')[k])
+            rows, cols = O.any_window(s.shape, (ps, ps), _col(tbl, 'x_fit')[k], _col(tbl, 'y_fit')[k])
             add[np.ix_(rows, cols)] += _col(tbl, 'local_bkg')[k]
         case.close(mib, mi2 + add, 'model_image_include_localbkg', rtol=1e-12,
                    atol=1e-12 * float(np.max(np.abs(mi2)) + 1), mech=dict(mm, ids=o['ids'], bkg=o['bkg']))
@@ -1566,6 +1595,49 @@ def _rel_model_image(case, p, tbl, s, o, model, call_data, data, mech):
         with np.errstate(invalid='ignore'):
             case.close(rb, data - (mi2 + add), 'residual_include_localbkg', rtol=1e-12,
                        atol=1e-12 * float(np.max(np.abs(mi2)) + 1), mech=dict(mm, ids=o['ids'], bkg=o['bkg']))
+
+
+def _default_window(case, p, tbl, s, o, model, call_data, data, mm):
+    """psf_shape=None: 'the bounding box of the model will be used'.  The documented bounding boxes: ImagePSF /
+    GriddedPSFModel = footprint of the (oversampled) array, ny/os_y x nx/os_x detector pixels about the position;
+    circular Gaussians = +-5.5 sigma (bbox_factor); Moffat = +-10 FWHM.  The window is the smallest integer shape
+    holding that box; when the box size is an integer to rounding, that size or one more is accepted."""
+    kind = o['kind']
+    n = len(tbl)
+    sizes = []
+    if kind in ('imagepsf', 'gridded'):
+        arr = np.asarray(model.data)
+        ny, nx = arr.shape[-2:]
+        osy, osx = s.info['oversampling']
+        sizes = [(ny / osy, nx / osx)] * n
+    elif kind in ('cgprf', 'cgpsf', 'cgprf_free', 'cgpsf_free'):
+        fw = _col(tbl, 'fwhm_fit') if 'fwhm_fit' in tbl.colnames else np.full(n, float(model.fwhm.value))
+        sizes = [(2 * 5.5 * f * G.FWHM2SIG,) * 2 for f in fw]
+    elif kind == 'moffat':
+        f = 2.0 * float(model.alpha.value) * np.sqrt(2 ** (1.0 / float(model.beta.value)) - 1)
+        sizes = [(20.0 * f, 20.0 * f)] * n
+    else:
+        return
+    if o['units']:
+        return
+    case.note('axis2_default_window_psf_shape_None')
+    mi0 = np.asarray(p.make_model_image(s.shape))
+    lo = [tuple(int(np.ceil(v - 1e-9)) for v in sz) for sz in sizes]
+    hi = [tuple(int(np.ceil(v + 1e-9)) for v in sz) for sz in sizes]
+    cands = [lo] if lo == hi else [lo, hi]
+    ok, dev = False, None
+    for c in cands:
+        own0 = _own_render(s, model, tbl, s.shape, psf_shape=list(c))
+        okc, d, _ = core.same(mi0, own0, 1e-10, 1e-12 * float(np.max(np.abs(own0)) + 1e-300))
+        dev = d if dev is None else min(dev, d)
+        ok = ok or okc
+    case.dev('model_image_default_window', dev)
+    case.check(ok, 'model_image_default_window_is_model_bounding_box', dict(mm, window='default'),
+               sizes=[list(map(float, sizes[0]))], oversampling=s.info.get('oversampling'))
+    d = call_data if not o['nddata'] else data
+    r0 = np.asarray(_strip(p.make_residual_image(d)))
+    with np.errstate(invalid='ignore'):
+        case.close(r0, data - mi0, 'residual_is_data_minus_model_image', mech=dict(mm, window='default'))
 
 
 def _check_metrics(case, p, tbl, s, o, model, data, mask, error, facts, R, fitgroup, mech):
